@@ -29,6 +29,7 @@ func checkC03(c *Ctx) {
 	c.Rule("C03/R3", "the iteration-count fast path cannot overflow: for each word size the digit-count bound d of the unchecked path satisfies 10^d-1 <= MaxInt of that size; everything else goes to the checked parser")
 	c.Rule("C03/R4", "exponent range check: in the decimal-to-bits conversion every increase of the binary exponent is followed, before the bits are assembled, by the test against the format's exponent limit (otherwise out-of-range text yields a silent Inf/garbage instead of a range error)")
 
+	c.Rule("C03/R11", "the slow path's decimal starts from the zero value: every (*decimal).set is called on a decimal allocated in the calling function")
 	c.Rule("C03/R10", "a dropped mantissa digit counts as truncation only if it is not zero: in readFloat the truncation flag becomes true only where the digit is known to differ from '0' (or is a hexadecimal letter)")
 	c.Rule("C03/R9", "iteration counts are decimal: Atoi hands the text it does not parse itself to ParseInt with base 10 and bit size 0 (base 0 would read 0x10, 0b1, 0o7, a leading 0 as octal and underscores)")
 	c.Rule("C03/R8", "infinities and NaN: the port's recogniser accepts exactly strconv's spellings (optional sign on inf/infinity, none on nan), comparing the whole input with the literal, and maps each to the same value")
@@ -46,6 +47,7 @@ func checkC03(c *Ctx) {
 	c03Special(c, p)
 	c03Decimal(c, p)
 	c03Trunc(c, p)
+	c03FreshDecimal(c, p)
 	if c.Tier == "thorough" {
 		if c.override == nil {
 			c03Drift(c, p)
@@ -1416,4 +1418,41 @@ func c03Trunc(c *Ctx, p *Prog) {
 		}
 	}
 	c.Floor(R, "places where readFloat marks the mantissa as truncated", n, 2)
+}
+
+// c03FreshDecimal (C03/R11): the multiprecision decimal of the slow path starts from nothing: every (*decimal).set in
+// the package is called on a decimal allocated in the calling function (a local or new(decimal)), never on one obtained
+// from elsewhere — a pool, a field, a package-level variable. set appends to the digits already there (it was written
+// for a zero value), so a recycled decimal parses the old digits followed by the new ones.
+func c03FreshDecimal(c *Ctx, p *Prog) {
+	const R = "C03/R11"
+	set := p.Method("benchfmt/internal/bytesconv", "decimal", "set")
+	if set == nil {
+		c.Undecided(R, "anchor:decimal.set", "", "not found")
+		return
+	}
+	n := 0
+	for _, fn := range p.Funcs("benchfmt/internal/bytesconv") {
+		eachInstr(fn, func(_ *ssa.BasicBlock, in ssa.Instruction) {
+			call, ok := in.(*ssa.Call)
+			if !ok || call.Call.StaticCallee() != set {
+				return
+			}
+			n++
+			recv := call.Call.Args[0]
+			al, isAlloc := recv.(*ssa.Alloc)
+			fresh := isAlloc && al.Parent() == fn
+			if fresh {
+				// nothing stored into it before set
+				for _, r := range *al.Referrers() {
+					if st, ok := r.(*ssa.Store); ok && st.Addr == ssa.Value(al) && instrDominates(st, call) {
+						fresh = false
+					}
+				}
+			}
+			c.Check(fresh, R, fmt.Sprintf("%s:set-on-fresh-decimal#%d", fnName(fn), n), p.pos(call.Pos()), "set is called on a decimal allocated here",
+				"set is called on a decimal that was not allocated in this function (recycled from a pool, a field or a package-level variable): set does not clear the digit count, so the second slow-path number of a process is parsed as the previous number's digits followed by its own — 2e300 after another slow-path value comes back as a range error")
+		})
+	}
+	c.Floor(R, "calls of decimal.set", n, 2)
 }
